@@ -67,6 +67,77 @@ PROPS = {
                  "writes crossing a block end beyond the per-bit rule.",
         ),
     ),
+    "C02": dict(
+        modules=["c20_common", "c20_decoder_io", "c02_common", "c02_stream", "c02_sequence_header", "c02_picture", "c02_transform_data", "c02_sequence"],
+        level="proof",
+        assumptions=[
+            "first sentence only (never fails with anything but a ConformanceError): every function of decoder/stream.py, sequence_header.py, picture_syntax.py, "
+            "fragment_syntax.py, transform_data_syntax.py, assertions.py (except assert_level_constraint), decoder/io.py, pseudocode/state.reset_state and "
+            "pseudocode/video_parameters.py is verified against a contract with `raises ConformanceError only` plus all implicit safety obligations "
+            "(key present, local bound, divisor non-zero, index in range, assert, callee precondition)",
+            "second sentence (explain / offending_offset / bitstream_viewer_hint never fail): covered only by raise-site preconditions for the exceptions whose "
+            "explain() constrains its arguments (ParseCodeNotAllowedInProfile, ParseCodeNotSupportedByVersion, ProfileNotSupportedByVersion, MissingNextParseOffset, "
+            "and the 'level recorded first' typestate for ValueNotAllowedInLevel); the string formatting itself is NOT verified",
+            "TRUSTED: picture_decode and everything below it (idwt, clipping, offsetting, output callback) - assumed not to raise and not to touch state except current_picture",
+            "TRUSTED: Matcher (model M1/M2/M4), OrderedDict, allowed_values_for / ValueSet membership (C17, C18 bounded)",
+            "resource bounds of the property are irrelevant to a proof; termination is not proved",
+        ],
+        manifest=dict(
+            category="proof",
+            technique="contract-based deductive verification: typestate contracts (which state keys are present when), effect contracts (raises only ConformanceError) and "
+                      "loop invariants on the real bodies of the validator; pyvc VCs discharged by z3",
+            text="About 75 validator functions are verified function by function for ALL states and byte strings: no KeyError on state[...] (typestate), no unbound local, "
+                 "no zero divisor, no out-of-range index into coefficient arrays (via the C13 slice-geometry lemmas), no failing assert, and nothing but ConformanceError "
+                 "escapes parse_stream.  parse_sequence is verified under the minimal precondition 'I/O initialised'.  Two genuine defects (D1 unbound local in parse_info, "
+                 "D2 KeyError in fragment_header) were found by failing obligations, repaired in /repo and are recorded as fixed.",
+            note="Trusted: picture_decode subtree, Matcher/OrderedDict/constraint-table models, initialize_wavelet_data and set_quant_matrix (postconditions checked by "
+                 "evaluation on every run), one assumed relational postcondition of sequence_header (same bytes => same parse).  explain()/viewer-hint string formatting not verified.",
+        ),
+    ),
+    "C10": dict(
+        modules=["c20_common", "c20_decoder_io", "c02_common", "c02_stream", "c02_sequence_header", "c02_picture", "c02_transform_data", "c02_sequence"],
+        only_units=["reset_state", "parse_sequence", "parse_stream", "parse_info", "init_io"],
+        level="proof",
+        assumptions=[
+            "reset_state is verified to remove every State entry except the five that the property allows to carry over (I/O position, file, recording buffer, output callback) - "
+            "the carried-over list is written from the property statement, not read from the code",
+            "parse_sequence is verified under the precondition 'I/O part of the state is well-formed and no recording is in progress' ONLY: every other entry it reads was "
+            "written earlier in the same call, so its verdict and effects cannot depend on earlier sequences; it re-establishes that precondition on normal return",
+            "determinism: the verified functions write no module-level state (purity scan, eval fact) and module tables are only read; the output callback is assumed not to touch state",
+            "NOT covered: equality of the decoded pictures themselves (picture_decode is trusted)",
+        ],
+        manifest=dict(
+            category="proof",
+            technique="contract-based deductive verification: frame/ownership contract of reset_state and a minimal-precondition contract of parse_sequence (non-interference by "
+                      "definedness), pyvc + z3",
+            text="Independence of concatenated sequences is proved as non-interference: parse_sequence needs nothing of the incoming state but the I/O position, "
+                 "reset_state provably deletes everything else, and parse_stream's loop maintains exactly that precondition.",
+            note="Trusted as for C02 (picture_decode subtree, callback, library models).",
+        ),
+    ),
+    "C01": dict(
+        modules=["c20_common", "c20_decoder_io", "c02_common", "c02_stream", "c02_sequence_header", "c02_picture", "c02_transform_data", "c02_sequence"],
+        only_units=["parse_info", "assert_picture_number_incremented_as_expected", "assert_major_version_is_minimal", "fragment_header", "fragment_data",
+                    "fragment_parse", "parse_sequence", "picture_header", "assert_parse_code_in_sequence"],
+        level="proof",
+        assumptions=[
+            "direction proved: ACCEPTED => structurally conformant.  Each rule of the statement is a postcondition on normal return of the function that implements it "
+            "(written from the statement): sequence header first / end-of-sequence last, next/previous parse offsets equal the true distances, zero/non-zero offset rules, "
+            "parse code permitted by profile and version, consecutive picture numbers mod 2^32, even first field, whole frames, initial zero-slice fragment, same picture "
+            "number across fragments, contiguous raster-order slices, no picture interleaved with a fragmented picture, fragmented pictures complete at end of sequence",
+            "direction NOT proved in general: conformant => accepted (only assert_picture_number_incremented_as_expected, assert_major_version_is_minimal and the I/O "
+            "primitives carry exact 'raises iff' conditions)",
+            "NOT established: the level's data-unit ordering pattern (Matcher is an opaque trusted model; bounded-checked under C18) and byte-identical repeated sequence "
+            "headers (the comparison is executed by verified code, but equality of recorded bytes is left uninterpreted)",
+            "'every rejection is a conformance error' is C02",
+        ],
+        manifest=dict(
+            category="proof",
+            technique="contract-based deductive verification: the stream-structure rules as postconditions / exact exceptional conditions of the validator functions, pyvc + z3",
+            text="Necessary conditions of acceptance, for all histories of data units (unbounded): every rule listed in the assumptions holds whenever parse_sequence returns normally.",
+            note="One direction only, see assumptions; level ordering patterns and header byte-identity are not established by this check.",
+        ),
+    ),
 }
 
 
